@@ -348,11 +348,11 @@ def stability_margin(poles, eps_inf, courant, mu=1.0):
     return 1.0 - (courant ** 2 / mu + _pole_load(poles)) / eps_inf
 
 
-MARGIN_CLASS = 0.008
+MARGIN_CLASS = 0.01
 
 
 def overloaded_medium(case):
-    """KNOWN_CLASSES predicate: the scene contains a passive Lorentz/Drude medium beyond, or within 0.008 (normalised)
+    """KNOWN_CLASSES predicate: the scene contains a passive Lorentz/Drude medium beyond, or within 0.01 (normalised)
     of, the coupled ADE-FDTD stability limit for its courant factor — and placement says nothing about it."""
     if not ("poles" in case and "target" in case):
         return False
@@ -401,7 +401,7 @@ def bounded_strategy(draw, ctx):
             poles.append({"type": "drude", "wp": float("%.6g" % (u["wp"] * math.sqrt(k))), "g": u["g"]})
     # a few media that the documented isolated-pole rule (w0 dt < 2) makes placement reject: they exercise the
     # "accepted" premise from the other side (a tree that stops rejecting them lets them through to the run)
-    if draw(st.integers(0, 15)) == 0:
+    if draw(st.sampled_from(range(16))) == 0:
         poles[0] = {"type": "lorentz", "w": draw(st.sampled_from([2.0, 2.6])), "g": poles[0]["g"], "de": 1.0}
     mask = None
     if draw(st.integers(0, 2)) == 0:
@@ -446,8 +446,8 @@ def body_bounded(ctx, case):
     stable = margin >= MARGIN_CLASS
     ctx.classify("load=" + ("<0.5" if load < 0.5 else "0.5-0.8" if load < 0.8 else "0.8-0.9" if load < 0.9 else
                             "0.9-1" if load < 1 else "1-2" if load < 2 else ">=2"),
-                 "margin=" + ("<0 (beyond the coupled bound)" if margin < 0 else "0-0.008" if margin < MARGIN_CLASS else
-                              "0.008-0.05" if margin < 0.05 else "0.05-0.3" if margin < 0.3 else ">=0.3"),
+                 "margin=" + ("<0 (beyond the coupled bound)" if margin < 0 else "0-0.01" if margin < MARGIN_CLASS else
+                              "0.01-0.05" if margin < 0.05 else "0.05-0.3" if margin < 0.3 else ">=0.3"),
                  "courant=%g" % case["courant"], "eps_inf=%g" % case["eps_inf"], "poles=%d" % len(case["poles"]),
                  "masked" if case["mask"] else "full-domain",
                  "walls=" + "".join(sorted(w[:3] for w in case["walls"])),
@@ -495,7 +495,7 @@ def body_bounded(ctx, case):
     ctx.nontrivial(True)
     fin = np.isfinite(en)
     finite_max = float(np.max(np.where(fin, en, 0.0))) / e0
-    ctx.metric("energy_ratio[margin>=0.008]" if stable else "energy_ratio[margin<0.008]", min(finite_max, 1e300))
+    ctx.metric("energy_ratio[margin>=0.01]" if stable else "energy_ratio[margin<0.01]", min(finite_max, 1e300))
     desc = (f"stability margin {margin:.4f}, load factor {load:.3f} (poles {case['poles']}, eps_inf {case['eps_inf']}, courant {case['courant']}), "
             f"placement raised no warning")
     if not fin.all():
